@@ -7,6 +7,7 @@ import TLX.Props.ExportProps
 import TLX.Props.C12
 import TLX.Props.C09Found
 import TLX.Props.C11
+import TLX.Props.C12Dissect
 set_option linter.unusedSimpArgs false
 namespace TLX.Props.ExportInputs
 open TLX TLX.MainLoop TLX.Export TLX.Spec.Demux TLX.Lemmas.ExportProps TLX.Lemmas.MainLoop
@@ -1305,7 +1306,41 @@ theorem export_ignores_checksums_without_c (args : Args) (legacy₁ legacy₂ : 
   rw [hr₁, hr₂]
   simp only [go_noC_congr hz 0]
 
+/-- the checksum fields of a frame are not among what the tool takes from dpkt: two well-formed Ethernet II / IPv4 / TCP or
+    UDP frames (`Spec.FrameBuild`: any options, trailer) that differ ONLY in the IPv4 header checksum, the TCP / UDP
+    checksum, or anything else outside the addresses, ports, sequence numbers and payload (TOS, TTL, window, flags, IP
+    options, …) have the same view -/
+theorem checksum_fields_not_dissected (f f' : Spec.FrameBuild.Frame) (h h' : Spec.FrameBuild.V4)
+    (hn : f.net = .v4 h) (hn' : f'.net = .v4 h') (w : f.WF) (w' : f'.WF)
+    (hsame : f.srcMac = f'.srcMac ∧ f.dstMac = f'.dstMac ∧ h.src = h'.src ∧ h.dst = h'.dst ∧
+      C12Dissect.transportOf f.upper = C12Dissect.transportOf f'.upper) :
+    (dissect f.encode).map viewNoCsum = (dissect f'.encode).map viewNoCsum := by
+  rw [C12Dissect.dissect_build_v4 f h hn w, C12Dissect.dissect_build_v4 f' h' hn' w']
+  obtain ⟨a, b, c, d, e⟩ := hsame
+  simp only [Except.map, viewNoCsum, a, b, c, d, e]
+
 end NoC
+
+namespace Ex
+open TLX.Spec.FrameBuild
+
+/-- a well-formed TCP segment to port 443 whose checksum field is `cs` (the right value is not 0) -/
+def seg (cs : Nat) : Frame :=
+  ⟨[1, 2, 3, 4, 5, 6], [7, 8, 9, 10, 11, 12], .v4 ⟨0, 7, true, false, 64, 0, [10, 0, 0, 1], [10, 0, 0, 2], []⟩,
+   .tcp ⟨50000, 443, 1000, 2000, 0x18, 0, 8192, cs, 0, [], [0x16, 3, 3]⟩, []⟩
+
+/-- what the read loop under `-c` decides about one frame -/
+def rejectedOf (buf : Bytes) : Option Bool :=
+  match Ingest.framePkt true 3 0 buf with
+  | .ok (p, _) => some (rejected (.frame p))
+  | .error _ => none
+
+/-- non-vacuity of `export_checksum_filter`: the read loop under `-c` marks this frame with checksum field 0 as rejected
+    and the same frame with the right checksum (0x9200) as accepted — the filter removes the one and keeps the other -/
+theorem rejected_instance : rejectedOf (seg 0).encode = some true ∧ rejectedOf (seg 0x9200).encode = some false := by
+  decide +kernel
+
+end Ex
 
 end C11
 
